@@ -169,7 +169,11 @@ class Douglas(DiscriminativeModel):
         # Compute individual cut points backprop
         for i, (_, cut_points) in enumerate(self.cut_points_list_):
             axes_for_sum = tuple([1 + j for j in range(len(self.cut_points_list_)) if i != j])
-            softmax_grad = binning_backprop.sum(axes_for_sum) / self._all_binnings[i]
+            # A saturated soft binning holds exact zeros (large feature values or a low temperature): the numerator
+            # carries the same factor, so the quotient is taken as null there instead of 0 / 0
+            binning_i = self._all_binnings[i]
+            softmax_grad = np.divide(binning_backprop.sum(axes_for_sum), binning_i, out=np.zeros_like(binning_i),
+                                     where=binning_i != 0)
 
             bin_grad = self._all_binnings[i] * (
                     softmax_grad - (self._all_binnings[i] * softmax_grad).sum(1, keepdims=True))  # Shape Nx(d+1)
